@@ -201,9 +201,9 @@ func checkFile(c FileCase) vrep.Result {
 	var err error
 	select {
 	case err = <-done:
-	case <-time.After(90 * time.Second):
+	case <-time.After(240 * time.Second):
 		cmd.Process.Kill()
-		return vrep.Fail("probe did not finish within 90 s under configuration:\n%s", text)
+		return vrep.Fail("probe did not finish within 240 s under configuration:\n%s", text)
 	}
 	output := out.String()
 	crashed := panicRe.MatchString(output)
